@@ -48,8 +48,18 @@ def load_jobs():
             j = dict(j)
             j.setdefault("family", os.path.basename(path)[:-3])
             jobs.append(j)
+    off = {}
+    offp = os.path.join(VERIF, "jobs", "off.list")     # jobs kept but not run on this machine (with the reason)
+    if os.path.exists(offp):
+        for line in open(offp):
+            if line.strip() and not line.startswith("#"):
+                nm, _, why = line.partition("#")
+                off[nm.strip()] = why.strip()
     names = set()
     for j in jobs:
+        if j["name"] in off:
+            j["tier"] = "off"
+            j["off_reason"] = off[j["name"]]
         if j["name"] in names:
             raise SystemExit("duplicate job name " + j["name"])
         names.add(j["name"])
@@ -172,7 +182,7 @@ def run_job(job, scratch_root, keep=False):
             return res
     else:
         b = a
-    cb = ["cbmc", b, "--json-ui", "--trace", "--object-bits", str(job.get("object_bits", 12))]
+    cb = ["cbmc", b, "--json-ui", "--trace", "--verbosity", "8", "--object-bits", str(job.get("object_bits", 12))]   # verbosity 8: runtime statistics (solver time for the evidence)
     cb += SOLVERS[job["solver"]]
     cb += job["cbmc_flags"]
     res["checker_cmd"] = " ".join(gi if use_dfcc else []) + " ; " + " ".join(cb)
@@ -206,7 +216,7 @@ def run_job(job, scratch_root, keep=False):
             if "messageText" in m:
                 texts.append(m["messageText"])
     alltext = "\n".join(texts)
-    for mo in re.finditer(r"Runtime decision procedure: ([0-9.]+)s", alltext):
+    for mo in re.finditer(r"Runtime decision procedure: ([0-9.eE+-]+)s", alltext):
         res["solver_s"] += float(mo.group(1))
     for mo in re.finditer(r"Runtime Solver: ([0-9.]+)s", alltext):
         pass
